@@ -45,7 +45,9 @@ CHECKS = {
                      "is a witness, so is a successful primitive leaving the cursor outside the buffer, an AVP parse "
                      "consuming < 8 bytes, or a step count above (nesting+2)*(len/2+64). Inputs: random strings to "
                      "64 KiB, every prefix of valid messages, bit flips, every length field x 9 boundary values, every "
-                     "AVP type x payload length 0..20 x invalid content in four embeddings, nesting to 16.",
+                     "AVP type x payload length 0..20 x invalid content in four embeddings, nesting to 16. A value "
+                     "getter that returns a value for a payload the reference codec calls malformed for the type "
+                     "(wrong width, bad UTF-8, short address) is a witness as well.",
                 ref="4 C04", note=BASE_NOTE + "; linear time is judged on a logical step count, not wall-clock; "
                 "diameter.message.dump() is observed but not judged."),
     "C20": dict(cat="exploration", tech="runtime contract on the real Message.to_answer over every command class x "
@@ -54,7 +56,9 @@ CHECKS = {
                      "P kept, R/E/T cleared and request untouched (header tuple and byte snapshot) on every call; the "
                      "grid class x flag octet is enumerated completely for decoded, plain-decoded and constructed "
                      "requests. Answers from Node._generate_answer and Application.generate_answer are encoded by the "
-                     "real code and their bytes checked for Origin-Host/Realm, Session-Id and Proxy-Info.",
+                     "real code and their bytes checked for Origin-Host/Realm, Session-Id and Proxy-Info; a node "
+                     "serving a peer of another realm (inbound and self-initiated) has every frame it writes read off "
+                     "the wire for the local Origin-Host / Origin-Realm.",
                 ref="4 C20", note=BASE_NOTE + "; Session-Id/Proxy-Info copying is judged for commands whose request "
                 "grammar has them (typed) and for all untyped commands."),
     "C05": dict(cat="exploration", tech="real PeerConnection reader thread fed with enumerated chunkings; delivered "
@@ -63,7 +67,10 @@ CHECKS = {
                      "k-cuts, byte-at-a-time and 2048-byte reads, in step and burst feeding; bad frames (undecodable "
                      "body, header length 0, 1..19, real-4, real+4, real+next, 2^24-1) are inserted at every index with "
                      "every cut position around a skipped frame. The oracle demands exact delivery for well-formed "
-                     "streams, prefix exactness + progress (resync / wait / close) for wrong lengths.",
+                     "streams, prefix exactness + progress (resync / wait / close) for wrong lengths. One layer "
+                     "further out a node's own recv() sizes are driven (bursts on and around the chunk size), and a "
+                     "bad frame directly behind requests whose answers are still pending must leave the connection "
+                     "closed or serving.",
                 ref="4 C05", note=NODE_NOTE + "; only the queue shim is engaged here (no node), poll time-outs "
                 "scaled 5 s -> 4 ms."),
     "C06": dict(cat="exploration", tech="lockstep node harness (virtual transport + clock) with a reference model of "
@@ -71,7 +78,8 @@ CHECKS = {
                 text="The real Node runs with its real threads on socketpair-backed shim sockets, a gated select and a "
                      "virtual clock. All event sequences to depth 3 (thorough 4) over the 14-letter alphabet of the "
                      "property on inbound and outbound connections, random sequences to depth 10, directed deadline "
-                     "timelines, x 4 configurations; after each event the frames written, application deliveries, "
+                     "timelines, application-id placements, x 7 configurations, also for a second connection of a "
+                     "peer that already has a ready one; after each event the frames written, application deliveries, "
                      "socket state, CEA/CER content and routing availability are compared with the model.",
                 ref="4 C06", note=NODE_NOTE + "; behaviour after a second CER is unspecified and not judged."),
     "C07": dict(cat="exploration", tech="lockstep node harness; per-socket multiset matching of every transmitted "
@@ -126,7 +134,8 @@ CHECKS = {
                 "reconnect-policy model judged at every timer check; DPR answer, routing and reason checks",
                 text="Exhaustive sequences of 3 (thorough 4) connection outcomes {refused, in-progress then success / "
                      "failure, CEA rejected, CEA timeout, peer gone, socket error, DPR, inbound connection of the same "
-                     "peer that closes} x 6 flag sets (persistent, always_reconnect, reconnect_wait, addresses), random "
+                     "peer that closes, pending inbound lost, write error, DPR with a late DWA, repeated DPR} (15 "
+                     "outcomes) x 7 flag sets incl. a busy neighbour connection (persistent, always_reconnect, reconnect_wait, addresses), random "
                      "longer sequences with reconnect_wait 1..60; the clock is stepped 1 s at a time and every tick is "
                      "judged: dial required / forbidden, number of live self-initiated sockets.",
                 ref="4 C12", note=NODE_NOTE + "; a socket whose connect() was refused synchronously is not a "
@@ -136,7 +145,8 @@ CHECKS = {
                 text="Exhaustive action sequences to depth 3 (thorough 4) and random walks to depth 12 over 15 actions "
                      "(inbound connections incl. a second one of a connected peer, CER/CEA of every outcome, DPR, peer "
                      "gone, socket error, CE and watchdog time-outs, node-initiated close, requests) on 3 peers (one "
-                     "dialled) and 2 applications from 3 start situations; after each step: Peer.connection vs live "
+                     "dialled, one in another realm; every third history spells identities with capitals) and 2 "
+                     "applications from 5 start situations; after each step: Peer.connection vs live "
                      "connections, closed connections absent from connections / peer_sockets / half-ready table and "
                      "their sockets closed, disconnect reason and time, application readiness.",
                 ref="4 C13", note=NODE_NOTE + "; ownership of an inbound connection starts when its 2001 CEA is "
@@ -146,7 +156,8 @@ CHECKS = {
                 text="Exhaustive request sequences of length 4 (thorough 5) over origin x end-to-end id x T flag x "
                      "answered-now/deferred plus deferred submissions and DWRs for window sizes 1 and 2, random "
                      "sequences to length 12 for window sizes 1..4 on one or two connections, so eviction from the "
-                     "window, repeats of pending requests and cross-origin identifiers are exercised.",
+                     "window, repeats of pending requests, cross-origin identifiers, reconnects and the end-to-end "
+                     "identifier 0 are exercised.",
                 ref="4 C17", note=NODE_NOTE + "; the window counts every answer the node transmits to the origin."),
     "C14": dict(cat="fault_enumeration", tech="fault injection at enumerated byte offsets and protocol steps on the "
                 "lockstep node harness; monitors: threading.excepthook, liveness of long-lived threads, absolute "
@@ -164,8 +175,9 @@ CHECKS = {
     "C18": dict(cat="fault_enumeration", tech="lockstep node harness; Node.stop() runs in a harness thread on the "
                 "virtual clock while peers react by script; event-log model + census of sockets and threads after "
                 "return; half of the cases repeated under directed schedule perturbation",
-                text="0..3 connections in each of 7 states at stop time x 5 peer reactions to the DPR (prompt, late, "
-                     "never, close, DPA then close) x newcomer during shutdown x persistent-peer reconnect deadline "
+                text="0..3 connections in each of 8 states at stop time x 7 peer reactions to the DPR (prompt, late, "
+                     "never, close, DPA then close, handshake completing during the stop, DPA with output pending) x "
+                     "1..3 listening addresses (optionally both transports) x newcomer during shutdown x persistent-peer reconnect deadline "
                      "inside the window x force x wait timeouts; enumerated for 0..2 connections, sampled for 3. Judged: "
                      "DPR(REBOOTING) to exactly the ready peers, none when forced, close soon after DPA or at the "
                      "timeout, newcomers closed unserved, no DWR / dial while stopping, stop() returns without "
@@ -175,11 +187,13 @@ CHECKS = {
     "C19": dict(cat="exploration", tech="lockstep node harness; structural census (every container reachable from "
                 "Node, Peers, Applications + live worker threads + open sockets) at quiescence after N and 10N "
                 "operations of one kind on fresh nodes, compared",
-                text="18 kinds: inbound request/answer (basic, threading, handler returning nothing), outbound "
+                text="26 kinds: inbound request/answer (basic, threading, handler returning nothing), outbound "
                      "request/answer, DWR/DWA both ways, rejected requests (5005/3007/3003/T duplicate), late and "
                      "unknown answers, connections established then closed by either side (with and without a "
                      "request), refused synchronously, failed asynchronously, CEA rejected, CER rejected, unknown peer, "
-                     "CE timeout, refused while stopping; N = 40/400 (thorough 100/1000). Containers are discovered "
+                     "CE timeout, refused while stopping, requester gone before the handler finishes, request handed "
+                     "over after its connection was removed (delay only), garbage behind pending answers, second-"
+                     "connection cycles; N = 40/400 (thorough 100/1000). Containers are discovered "
                      "structurally, so a new table is covered without being named.",
                 ref="4 C19", note=NODE_NOTE + "; documented fixed-size windows (deques with maxlen, per-second slot "
                 "counters) excluded; growth threshold +2."),
@@ -196,7 +210,9 @@ CHECKS = {
                      "other (-6..+6), every identifier the node puts on the wire (application requests, watchdog "
                      "requests) is compared.",
                 ref="4 C16", note=BASE_NOTE + "; line-boundary preemption is assumed possible (section 1.4 of "
-                "DESIGN.md); the scheduler's own locks replace the generator's lock instances."),
+                "DESIGN.md); every function of the generator class is a scheduling point and locks the generator "
+                "creates at any time are scheduler-aware; an execution in which the scheduler loses control is "
+                "counted and makes the shard inconclusive, never a violation."),
     "C15": dict(cat="exploration", tech="line-gated deterministic scheduler over the real queueing threads, the "
                 "connection's real writer thread and the node's real I/O loop (choice points found from the source "
                 "text), scripted partial writes / soft errors, byte-stream oracle; free-running stress with yields",
@@ -205,7 +221,8 @@ CHECKS = {
                      "message; every interleaving with <= 2 preemptions (thorough 3) is executed once, the evidence "
                      "says per scenario whether the space was exhausted. The oracle: bytes accepted by send() == "
                      "concatenation of the queued messages in the order of their add_out_msg steps. Stress: 18 "
-                     "messages from 3 threads per run, random write plans, seeded yields; frames carry unique ids.",
+                     "messages from 3 threads per run (burst, paced by sleeping, paced by yielding), random write "
+                     "plans, seeded yields; frames carry unique ids.",
                 ref="4 C15", note=NODE_NOTE + "; line-boundary preemption assumed possible; select() and an empty "
                 "queue are 'blocked until ready' for the scheduler."),
 }
